@@ -34,6 +34,16 @@ class ToolError(Exception):
     pass
 
 
+_CRASH_SIGNALS = {4: "SIGILL", 6: "SIGABRT", 7: "SIGBUS", 8: "SIGFPE", 11: "SIGSEGV"}
+
+
+class Crash(Exception):
+    """The harness process died of a fatal signal while calling allsorts (e.g. unbounded recursion)."""
+    def __init__(self, signame, cmd, tail):
+        Exception.__init__(self, "%s: %s" % (signame, " ".join(cmd)))
+        self.signame, self.cmd, self.tail = signame, cmd, tail
+
+
 class Hang(Exception):
     """A call into allsorts did not return within the harness' watchdog limit (exit status 3 + hang file)."""
     pass
@@ -98,6 +108,10 @@ def run_harness(binpath, args, timeout=1800, env_extra=None, stdin=None, hang_pa
     if p.returncode == 3 and hang_path and os.path.exists(hang_path):
         # vh::sup::Watchdog: a call into allsorts did not return; the description of the call is in the file
         raise Hang(open(hang_path).read().strip())
+    if -p.returncode in _CRASH_SIGNALS:
+        # the process that runs allsorts on the check's inputs was killed by a fatal signal of its own making (stack
+        # overflow -> SIGABRT, SIGSEGV, ...): allsorts did not return. Never SIGKILL / SIGTERM (those come from outside).
+        raise Crash(_CRASH_SIGNALS[-p.returncode], [binpath] + [str(a) for a in args], (p.stdout + p.stderr)[-1500:])
     if p.returncode != 0:
         raise ToolError("harness %s %s exited %s:\n%s" % (os.path.basename(binpath), args[:2], p.returncode,
                                                         (p.stdout + p.stderr)[-3000:]))
